@@ -111,8 +111,10 @@ theorem ParseTilePath_loop1_eq (path : Bytes) : ∀ (segs pre : List Bytes) (n f
   | nil =>
     intro pre n fuel hf _
     obtain ⟨g, rfl⟩ : ∃ g, fuel = g + 1 := ⟨fuel - 1, by omega⟩
-    have : ¬ ((pre.length : Int) < len (pre ++ [])) := by simp [len]
-    simp [Generated.Tile.ParseTilePath_loop1, this, Tile.parseN, loopOut, mpure]
+    rw [List.append_nil]
+    have : ¬ ((pre.length : Int) < len pre) := by simp [len]
+    rw [Generated.Tile.ParseTilePath_loop1]
+    simp only [this, decide_false, Bool.false_eq_true, ↓reduceIte, Tile.parseN, loopOut, mpure]
   | cons s rest ih =>
     intro pre n fuel hf hfit
     obtain ⟨g, rfl⟩ : ∃ g, fuel = g + 1 := ⟨fuel - 1, by omega⟩
@@ -139,6 +141,7 @@ theorem ParseTilePath_loop1_eq (path : Bytes) : ∀ (segs pre : List Bytes) (n f
           simp [Tile.parseN, hp, h0, h1, Tile.pathBase]
         have hfit1 := hfit 1 (n * 1000 + nn.toNat) (by
           simp [Tile.parseN, hp, h0, h1, Tile.pathBase])
+        have hn1000 : n * 1000 < 2 ^ 63 := Nat.lt_of_le_of_lt (Nat.le_add_right _ _) hfit1
         have e1 : (n : Int) * 1000 = ((n * 1000 : Nat) : Int) := by omega
         have e2 : ((n * 1000 : Nat) : Int) + nn = ((n * 1000 + nn.toNat : Nat) : Int) := by omega
         have e3 : (pre.length : Int) + 1 = (((pre ++ [s]).length : Nat) : Int) := by simp
@@ -149,8 +152,9 @@ theorem ParseTilePath_loop1_eq (path : Bytes) : ∀ (segs pre : List Bytes) (n f
           simp only [List.take_succ_cons]
           rw [← hm]
           simp [Tile.parseN, hp, h0, h1, Tile.pathBase]
+        rw [e4]
         simp only [Option.isNone_none, Bool.not_true, h0, h1, decide_false, Bool.or_self, Bool.false_eq_true, ↓reduceIte,
-          e1, chk64_natCast (show n * 1000 < 2 ^ 63 by omega), mbind_ok, e2, chk64_natCast hfit1, e3]
-        rw [e4, ih (pre ++ [s]) (n * 1000 + nn.toNat) g (by omega) hfit', hstep]
+          e1, chk64_natCast hn1000, mbind_ok, e2, chk64_natCast hfit1, e3]
+        rw [hstep, ih (pre ++ [s]) (n * 1000 + nn.toNat) g (by omega) hfit']
 
 end ModVerif.TieFnTile
